@@ -421,4 +421,31 @@ theorem assertKinds_noop : ∀ (ks : List Nat) (g : KM), (∀ k ∈ ks, g.has k 
     rw [put_of_has (h k (List.mem_cons_self ..))]
     exact assertKinds_noop t g (fun k' hk' => h k' (List.mem_cons_of_mem _ hk'))
 
+/-! ### an id, once handed out, is the kind's id for the rest of every history -/
+
+theorem kmStepT_stable {g : KM} {k : Nat} (h : g.has k = true) (pc : KMPC) :
+    (kmStepT true g pc).1.has k = true ∧ (kmStepT true g pc).1.idOf k = g.idOf k := by
+  cases pc with
+  | start ks => exact ⟨h, rfl⟩
+  | putting ks todo =>
+    cases todo with
+    | nil => exact ⟨h, rfl⟩
+    | cons k' t => exact ⟨has_put_mono true h, idOf_put_stable h k'⟩
+  | done ks => exact ⟨h, rfl⟩
+
+theorem kmStep_stable {s : KMState} {k : Nat} (h : s.g.has k = true) (i : Nat) :
+    (kmStep true s i).g.has k = true ∧ (kmStep true s i).g.idOf k = s.g.idOf k := by
+  unfold kmStep
+  cases s.pcs[i]? with
+  | none => exact ⟨h, rfl⟩
+  | some pc => exact kmStepT_stable h pc
+
+theorem kmRun_stable : ∀ (sched : List Nat) (s : KMState) (k : Nat), s.g.has k = true →
+    (kmRun true s sched).g.has k = true ∧ (kmRun true s sched).g.idOf k = s.g.idOf k
+  | [], _, _, h => ⟨h, rfl⟩
+  | i :: t, s, k, h => by
+    have h1 := kmStep_stable h i
+    have h2 := kmRun_stable t (kmStep true s i) k h1.1
+    exact ⟨h2.1, h2.2.trans h1.2⟩
+
 end Dawgs.C05
